@@ -375,7 +375,13 @@ impl Drop for Tok {
         TOK_DROPPED.lock().unwrap_or_else(|e| e.into_inner()).push(self.0);
     }
 }
+pub static CNT: AtomicI64 = AtomicI64::new(0);
+/// successive values 1, 2, 3, ... within one run (token-identical expressions that evaluate to different values)
+pub fn cnt() -> i32 {
+    CNT.fetch_add(1, SeqCst) as i32 + 1
+}
 pub fn tok_reset() {
+    CNT.store(0, SeqCst);
     TOK_NEW.store(0, SeqCst);
     TOK_DROP.store(0, SeqCst);
     TOK_DROPPED.lock().unwrap_or_else(|e| e.into_inner()).clear();
@@ -562,7 +568,8 @@ fn step_of(e: &str) -> Option<u32> {
     let site = e.split(':').next().unwrap_or("");
     let mut it = site.split('.');
     it.next()?;
-    it.next()?.parse().ok()
+    // step fields >= 90 are markers (handler, end of evaluation), not steps
+    it.next()?.parse().ok().filter(|k: &u32| *k < 90)
 }
 pub fn steps_monotone(log: &[String]) -> bool {
     let mut cur = 0u32;
